@@ -30,6 +30,9 @@ CHECKS = {
  "C09": ("Metamorphic testing: Hypothesis-generated hypergraph + node/edge-ID bijections + insertion-order shuffles; f(relabelled) must equal f(original) pushed through the bijections",
          "Exploration with a metamorphic oracle over ~60 measures (stats, clustering coefficients, components, path lengths, densities, exact assortativities, simpliciality, maximal/duplicates, Katz centrality, every matrix through its index maps); a measure raising on one labelling only is a violation. Needs no reference implementation, so it reaches IDs that are permuted, gapped or strings, which the suite's fixtures never use.",
          "Float comparison rtol 1e-9; randomised estimators and measures documented to need 0..n-1 labels (line_vector_centrality) are outside the statement.", "DESIGN.md#C09"),
+ "C10": ("Round-trip testing: Hypothesis-generated networks of three classes through every converter pair; inverse-function oracle on incidences, labels, order, attributes and class",
+         "Exploration with round-trip oracles: hyperedge list/dict, bipartite edge list, labelled/positional incidence matrix, bipartite graph (index maps, shuffled vertex insertion order and edge orientation), dataframe, standard hypergraph dict, HIF dict, and the class-to-class constructors, each compared on exactly what the statement promises for that representation.",
+         "Standard-dict casts exercised on homogeneous int or str labels; hyperedge-list round trip only without empty edges (see assumptions in the evidence).", "DESIGN.md#C10"),
  "C05": ("Model-based testing: Hypothesis-generated histories applied step by step to xgi and to reference models transcribed from the docstrings (three classes), metamorphic relations for the degree-preserving moves",
          "Exploration by refinement checking against an executable specification: every op of a generated history is applied to the implementation and to the model (parametric in fresh IDs, prefix semantics for bulk calls) and the observable snapshots are compared after every step, including after rejected calls and their exception types.",
          "The models are my transcription of the documentation; inputs the documentation leaves contradictory are excluded by construction and counted (see assumptions in the evidence).", "DESIGN.md#C05"),
